@@ -216,6 +216,31 @@ class CHECK(Check):
                        "lam_pool": [str(F(rng.choice([0, 1, 1, 2, 3, 5]), rng.choice([1, 2, 4]))) for _ in range(4)],
                        "container": rng.choice(["list", "ndarray", "series"])}
 
+    def exhaustive(self, tier):
+        """small-scope enumeration (a TEST of the correspondence, not a proof): every 0/1 label vector x every
+        assignment to two groups with both groups present, 3 and 4 rows, all five parity moments, unit multipliers at the
+        first positions and one dense multiplier vector, through _Lagrangian._call_oracle and through GridSearch.fit —
+        this visits the all-weights-zero normalisation, zero-weight rows, the constant-label shortcut and the
+        learner path of Oracle.callOracleParity / callGridParity"""
+        import itertools
+        for n in (3, 4):
+            for y in itertools.product("01", repeat=n):
+                for g in itertools.product("ab", repeat=n):
+                    if len(set(g)) < 2:
+                        continue
+                    for moment in ("dp", "tpr", "fpr", "eo", "erp"):
+                        for kind in ("eg", "grid"):
+                            for lk, lp in (("unit", 0), ("unit", 1), ("random", 0)):
+                                case = {"kind": kind, "moment": moment, "y": list(y), "g": list(g), "c": None,
+                                        "h": ["0"] * n, "h2": ["0"] * n, "gtype": "str", "ctype": "str",
+                                        "container": "list", "pstyle": "flat", "db": None, "rb": "1/2" if lp else None,
+                                        "slack": "0", "lam_kind": lk, "lam_pos": lp,
+                                        "lam_pool": ["1", "1/2", "0", "2", "1", "3/4", "0", "1/4"] * 2,
+                                        "lam_order": "index", "fp": "1", "fn": "1"}
+                                if kind == "grid":
+                                    case["ncols"] = 2
+                                yield case
+
     def shrink(self, case):
         n = len(case["y"])
         for i in range(n):
@@ -318,7 +343,14 @@ class CHECK(Check):
         ncols = case.get("ncols", 1)
         grid = pd.DataFrame({j: lam_s.reindex(probe.index) * (j + 1) for j in range(ncols)})
         gs = red.GridSearch(Recorder(), m, grid=grid)
-        gs.fit(X, y, **kw)
+        try:
+            gs.fit(X, y, **kw)
+        except ValueError as e:
+            # a grid column whose total signed weights are all exactly 0: the constant-label shortcut hands all-zero
+            # sample weights to DummyClassifier, which sklearn rejects (known finding F12, reported under C09); an
+            # expected result only in that situation, judged below
+            out["zero_division"] = type(e).__name__
+            return out
         out["record"] = list(RECORD)
         out["n_predictors"] = len(gs.predictors_)
         out["dummies"] = [float(p.constant) if type(p).__name__ == "DummyClassifier" else None for p in gs.predictors_]
@@ -657,8 +689,10 @@ class CHECK(Check):
                     probs.append(Problem("property", f"weighted 0/1 error difference {dW!r} != n * (Lagrangian difference) "
                                                      f"{n * dL!r}; {where}", "C07.best_response"))
         elif o.get("zero_division"):
-            if w_spec is not None and any(a + b != 0 for a, b in zip(ow_spec, w_spec)):
-                probs.append(Problem("property", f"_call_oracle divided by zero although the weights are not all zero; {where}",
+            mults = [1] if kind == "eg" else [j + 1 for j in range(case.get("ncols", 1))]
+            if w_spec is not None and not any(all(a + k * b == 0 for a, b in zip(ow_spec, w_spec)) for k in mults):
+                probs.append(Problem("property", f"{'_call_oracle divided by zero' if kind == 'eg' else 'GridSearch.fit raised'} "
+                                                 f"although the weights are not all zero; {where}",
                                      "C07.eg_normalisation_preserves_order"))
         else:
             probs.extend(self._judge_record(case, o, w_spec, ow_spec, n, kind, where))
@@ -681,6 +715,8 @@ class CHECK(Check):
                         probs.append(orc_model_problem(f"all weights are 0 but the model says {model['orc0'][:40]}; {where}"))
                     return probs
                 dummy, dconst = o["dummy"], o["dummy_constant"]
+            elif o.get("zero_division"):
+                return probs       # some column has all-zero weights (judged above); nothing was recorded
             else:
                 dconst = o["dummies"][j] if j < len(o["dummies"]) else None
                 dummy = dconst is not None
@@ -969,7 +1005,8 @@ class CHECK(Check):
                     tags.append("eg:all-weights-zero" if o.get("zero_division") else
                                 "eg:dummy" if o.get("dummy") else "eg:learner-called")
                 if kind == "grid":
-                    tags.append(f"grid:learner-calls={len(o.get('record', []))}")
+                    tags.append("grid:all-weights-zero(F12)" if o.get("zero_division") else
+                                f"grid:learner-calls={len(o.get('record', []))}")
                 if m == 0:
                     tags.append("empty-index(no row has an event)")
                 if kind == "parity" and self._mode(case, o) != "spec":
